@@ -30,6 +30,7 @@ enum YieldKind
     YK_CALLABLE,   // a lazily evaluated callable runs
     YK_BLOCKED,    // waiting for a mutex
     YK_ALLOC,      // operator new (a thread can be preempted anywhere; this is a cheap extra seam)
+    YK_ATOMIC,     // an atomic operation of the code under test ("atomics" build variant only)
     YK_DONE
 };
 
@@ -104,6 +105,18 @@ struct Scheduler
     }
     bool unlock_not_owner = false;
     bool alloc_yield = false;      // run knob: allocations are yield points
+    // "atomics" variant: the thread that performs the run's k-th atomic operation is descheduled
+    // right before it for `atomic_stall_len` scheduler steps (fault sched.stall_at_atomic)
+    int64_t atomic_stall_at = -1;
+    int64_t atomic_stall_len = 0;
+    uint64_t atomic_ops = 0;
+    bool others_runnable(int me) const
+    {
+        for (int i = 0; i < nthreads; i++)
+            if (i != me && t[i].st == S_RUNNABLE)
+                return true;
+        return false;
+    }
     unsigned timeout_num = 0;      // run knob: a blocked timed lock gives up with probability n/8 per wait
     uint64_t timeout_state = 1;
 
